@@ -115,14 +115,36 @@ pub fn case(x: &Xfer) -> CaseOut {
                     let lp_before: u32 = b.loss_probes.iter().sum();
                     let lp_after: u32 = a.loss_probes.iter().sum();
                     if lp_after < lp_before && b.in_flight + b.mtu as u64 >= b.window {
-                        let n = dgrams.iter().filter(|d| d.pkts.iter().any(|p| p.ack_eliciting())).count() as u64;
+                        // datagrams of this call that really went beyond the window (loss probes are clamped
+                        // to 1200 bytes, so after them a small datagram may still fit a window that had no
+                        // room for a full-sized one)
+                        let mut run = b.in_flight;
+                        let mut n = 0u64;
+                        for d in dgrams.iter().filter(|d| d.pkts.iter().any(|p| p.ack_eliciting())) {
+                            if run + d.size as u64 > b.window {
+                                n += 1;
+                            }
+                            run += d.size as u64;
+                        }
+                        // (the first two of a probe round are exempt by definition even when they fit)
+                        let n = n.max((dgrams.iter().filter(|d| d.pkts.iter().any(|p| p.ack_eliciting())).count() as u64).min((lp_before - lp_after) as u64));
                         let e = probes.entry(*conn).or_insert(0);
                         *e += n;
                         let allowed = 2 * expiries.get(conn).copied().unwrap_or(0);
                         if *e > allowed {
                             return CaseOut::fail(
                                 "c12/probe-budget",
-                                format!("t={t} conn {conn}: {e} congestion-exempt probe datagrams after only {} timer expiries (limit 2 per probe timeout)", allowed / 2),
+                                format!(
+                                    "t={t} conn {conn}: {e} congestion-exempt probe datagrams after only {} timer expiries (limit 2 per probe timeout); this call: loss_probes {:?} -> {:?}, in flight {} -> {}, window {}, mtu {}, datagrams {:?}",
+                                    allowed / 2,
+                                    b.loss_probes,
+                                    a.loss_probes,
+                                    b.in_flight,
+                                    a.in_flight,
+                                    b.window,
+                                    b.mtu,
+                                    dgrams.iter().map(|d| (d.size, d.pkts.iter().map(|p| (p.ty, p.pn, p.frames.as_ref().map(|f| f.iter().map(|x| format!("{x:?}").chars().take(24).collect::<String>()).collect::<Vec<_>>()))).collect::<Vec<_>>())).collect::<Vec<_>>()
+                                ),
                             );
                         }
                     }
